@@ -1,7 +1,12 @@
 //! C19 harness: renders templates into scripted `io::Write` sinks (JSON lines in / out).
 //!
 //! Request: {"templates": {name: source}, "main": name, "ctx": json, "undefined": "...",
-//!           "entry": "template" | "block:<name>",
+//!           "entry": "template" (Template::render_captured_to) | "block:<name>" (State::render_block_to_write after a
+//!                    render into a String) | "template+block:<name>" (render_captured_to, then render_block_to_write
+//!                    from the returned state into the SAME sink),
+//!           "formatter": true  -> Environment::set_formatter with a formatter that writes "{" , the escaped value, "}"
+//!                                 through the Output it is handed,
+//!           "objects": true    -> the context gets `obj`, an Object whose render() writes three pieces into the formatter,
 //!           "sinks": [ {"script": [action, ...], "record": bool} , ... ]}
 //! An action answers ONE call of `io::Write::write`; after the script is used up every call is
 //! answered "full".  Actions:
@@ -23,8 +28,8 @@ use std::panic::{catch_unwind, AssertUnwindSafe};
 use std::sync::mpsc;
 use std::time::Duration;
 
-use minijinja::value::Value;
-use minijinja::{Environment, Error, UndefinedBehavior};
+use minijinja::value::{Object, Value};
+use minijinja::{context, Environment, Error, UndefinedBehavior};
 use serde_json::{json, Value as J};
 
 #[derive(Clone, Debug)]
@@ -111,6 +116,17 @@ impl Write for ScriptSink {
     }
 }
 
+/// An object that renders itself in several writes.
+#[derive(Debug)]
+struct Pieces;
+impl Object for Pieces {
+    fn render(self: &std::sync::Arc<Self>, f: &mut std::fmt::Formatter<'_>) -> std::fmt::Result {
+        f.write_str("<obj ")?;
+        write!(f, "{}", 42)?;
+        f.write_str(">")
+    }
+}
+
 fn hex(b: &[u8]) -> String {
     let mut s = String::with_capacity(b.len() * 2);
     for x in b {
@@ -152,6 +168,14 @@ fn run(req: &J) -> J {
             _ => UndefinedBehavior::Lenient,
         });
     }
+    if req.get("formatter").and_then(|x| x.as_bool()).unwrap_or(false) {
+        env.set_formatter(|out, state, value| {
+            out.write_str("{")?;
+            minijinja::escape_formatter(out, state, value)?;
+            out.write_str("}")?;
+            Ok(())
+        });
+    }
     let empty = serde_json::Map::new();
     let templates = req.get("templates").and_then(|x| x.as_object()).unwrap_or(&empty);
     for (name, src) in templates {
@@ -161,18 +185,29 @@ fn run(req: &J) -> J {
     }
     let main = req.get("main").and_then(|x| x.as_str()).unwrap_or("main");
     let entry = req.get("entry").and_then(|x| x.as_str()).unwrap_or("template");
+    let both = entry.strip_prefix("template+block:");
     let block = entry.strip_prefix("block:");
-    let ctxv = Value::from(minijinja::value::Serde(req.get("ctx").cloned().unwrap_or(J::Null)));
+    let mut ctxv = Value::from(minijinja::value::Serde(req.get("ctx").cloned().unwrap_or(J::Null)));
+    if req.get("objects").and_then(|x| x.as_bool()).unwrap_or(false) {
+        ctxv = context! { obj => Value::from_object(Pieces), ..ctxv };
+    }
     let tmpl = match env.get_template(main) {
         Ok(t) => t,
         Err(e) => return json!({"load_error": {"name": main, "err": mjverif::err_code(e.kind())}}),
     };
-    let plain = match block {
-        None => match tmpl.render(ctxv.clone()) {
+    let plain = match (block, both) {
+        (None, Some(b)) => match tmpl.render_captured(ctxv.clone()).and_then(|mut c| {
+            let first = c.output().to_string();
+            c.with_state_mut(|st| st.render_block(b)).map(|second| first + &second)
+        }) {
             Ok(s) => json!({"ok": s}),
             Err(e) => json!({"err": mjverif::err_code(e.kind())}),
         },
-        Some(b) => match tmpl.render_captured(ctxv.clone()).and_then(|mut c| c.with_state_mut(|st| st.render_block(b))) {
+        (None, None) => match tmpl.render(ctxv.clone()) {
+            Ok(s) => json!({"ok": s}),
+            Err(e) => json!({"err": mjverif::err_code(e.kind())}),
+        },
+        (Some(b), _) => match tmpl.render_captured(ctxv.clone()).and_then(|mut c| c.with_state_mut(|st| st.render_block(b))) {
             Ok(s) => json!({"ok": s}),
             Err(e) => json!({"err": mjverif::err_code(e.kind())}),
         },
@@ -196,9 +231,12 @@ fn run(req: &J) -> J {
             calls_after_fail: 0,
             flushes: 0,
         };
-        let r = catch_unwind(AssertUnwindSafe(|| match block {
-            None => tmpl.render_captured_to(ctxv.clone(), &mut sink).map(|_| ()),
-            Some(b) => tmpl
+        let r = catch_unwind(AssertUnwindSafe(|| match (block, both) {
+            (None, Some(b)) => tmpl
+                .render_captured_to(ctxv.clone(), &mut sink)
+                .and_then(|mut c| c.with_state_mut(|st| st.render_block_to_write(b, &mut sink))),
+            (None, None) => tmpl.render_captured_to(ctxv.clone(), &mut sink).map(|_| ()),
+            (Some(b), _) => tmpl
                 .render_captured(ctxv.clone())
                 .and_then(|mut c| c.with_state_mut(|st| st.render_block_to_write(b, &mut sink))),
         }));
